@@ -173,9 +173,30 @@ def shrink_candidates(inp):
 MANIFEST = {
     "level_claimed": {
         "category": "proof",
-        "text": "filled in at the end (see README)",
+        "text": ("Coq theorems over an exact-arithmetic (LegacyDec on raw integers) model of oracle.EndBlocker's price path, "
+                 "for ALL validator sets / powers / Votes stores / whitelists / stored rates / heights / parameters: "
+                 "C10_holds_for_every_input (inside the overflow-free domain the update never panics, a pair gets a "
+                 "price-update event and a fresh store entry iff it is whitelisted and its votes carry power <> 0, >= "
+                 "RoundInt(VoteThreshold x bonded power) and come from >= MinVoters positive votes; the rate satisfies the "
+                 "balance property 2*below <= T and 2*above <= T+1 and is a submitted positive rate of an eligible validator "
+                 "with positive power; every other stored rate is kept iff created+ExpirationBlocks > height), "
+                 "C10_replaced_iff_quorum (no domain condition), C10_median_is_lowest (unique characterisation), "
+                 "C10_median_sort_invariant / _permutation_invariant (Go's unstable sort and store order are irrelevant), "
+                 "C10_irrelevant_votes_no_influence (deleting all votes of ineligible validators, for non-whitelisted pairs and "
+                 "all abstentions leaves the outcome unchanged), C10_expiry_exact (over histories of blocks), "
+                 "C10_threshold_within_half_unit, C10_no_panic_in_domain. The model is run against the real keeper "
+                 "(oracle.EndBlocker on the x/oracle fixture) on generated situations every run and the proved-sound checker "
+                 "Pb is evaluated on the implementation's own output. C10_refuted_before_fix proves the pre-d9ae51e code "
+                 "violates the property (abstention published as price)."),
         "design_ref": "DESIGN.md §5 C10",
     },
-    "level_note": "",
+    "level_note": ("Assumes: staking state as returned by the staking keeper (read back and given to the model), powers >= 0 "
+                   "and summing below 2^63. Domain of the full theorem: VoteThreshold*bondedPower inside the Dec range and "
+                   "below 2^256 after rounding, |rate| <= 2^255, created+ExpirationBlocks < 2^64, RewardBand in [0,1]. Outside "
+                   "it the current code provably (C10_*_outside_domain, confirmed on the implementation by the driver's fixed "
+                   "openers) wraps the uint64 expiry sum or panics in EndBlock; Params.Validate accepts such values - reported "
+                   "as low-severity findings, not counted as violations. Trusted: Coq kernel + vm_compute, Lib/Dec.v, the Go "
+                   "driver's canonicalisation, tools/props/c10.py rendering. A change of the pivot test from >= to > yields "
+                   "another valid weighted median: it is caught by the correspondence (model mismatch), not by Pb."),
     "technique": "Coq proof over an exact-arithmetic model + differential correspondence on keeper-level EndBlocker runs",
 }
